@@ -70,22 +70,22 @@ CHECKS = {
    ref="5/C01"),
  "C04": dict(level="model_checking",
    technique="explicit-state BFS over allocation histories of the real implementation with an ownership oracle on every returned page id, plus an allocate-everything sweep in every reached state",
-   text="BFS over begin(+overflow)/Alloc/AllocN(2|7|avail|avail+1)/overwrite/free(first|middle|last|every other)/alloc-then-free-new/flush/commit/rollback/reopen histories on bounded and unbounded files. Every id returned by Alloc/AllocN is checked against the reference model (not live, not freed-committed, not allocated-unfreed, not an internal page per hook snapshot, distinct, >= 2); in every reached state a twin run allocates everything that is allocatable, writes it, commits and re-verifies every live page's self-identifying pattern.",
+   text="BFS over begin(+overflow)/Alloc/AllocN(2|7|avail|avail+1)/overwrite/free(first|middle|last|every other)/alloc-then-free-new/flush/commit/rollback/reopen histories on bounded and unbounded files. Every id returned by Alloc/AllocN is checked against the reference model (not live, not freed-committed, not allocated-unfreed, not an internal page per hook snapshot, distinct, >= 2); in every reached state a twin run allocates everything that is allocatable, writes it, commits and re-verifies every live page's self-identifying pattern. Start states: the empty file, hand-made seeds (free tail, fragmented, overwritten, full, overflow in use, inside an open overflow transaction) and the 575 harvested states of props/harvest.json (judged seed histories, multi-root search). After every commit the raw disk image is decoded by an independent decoder (engine/diskfmt): live pages, both free lists, free-list pages, mapping pages and overwrite pages must partition the page range, and no page below the file end may be owned by nobody.",
    note="Depth-bounded; internal pages are taken from the library's own bookkeeping (hook snapshot), live pages from the independent model.",
    ref="5/C04"),
  "C07": dict(level="model_checking",
    technique="explicit-state BFS with differential (twin) oracle: state after an aborted transaction vs. state before it began",
-   text="For every Rollback/Close transition of the BFS graph (every aborted body the alphabet can build up to the depth bound, after every prefix history) the logical file (read state, free pages as sets, end markers, meta area, WAL mapping, stats, lock state) must equal that of the quiescent state where the transaction began; where the in-memory representation still differs, both twins are driven through a fixed set of continuations and must return identical ids, errors, bytes and logical states.",
+   text="For every Rollback/Close transition of the BFS graph (every aborted body the alphabet can build up to the depth bound, after every prefix history) the logical file (read state, free pages as sets, end markers, meta area, WAL mapping, stats, lock state) must equal that of the quiescent state where the transaction began; where the in-memory representation still differs, both twins are driven through a fixed set of continuations and must return identical ids, errors, bytes and logical states. After every abort the allocator and mapping state of the open File is also compared with what a fresh open of the current disk contents arrives at (memory-vs-disk); aborted one-operation bodies are run from every 8th (thorough: every) harvested state.",
    note="Failed commits are covered by C08 (fault plans); depth-bounded.",
    ref="5/C07"),
  "C10": dict(level="model_checking",
    technique="explicit-state BFS with differential (twin) oracle across close/reopen",
-   text="Reopen is an operation of the BFS alphabet at every quiescent state; the logical file before and after must be identical (root, page contents, free pages as sets, end markers, meta area, WAL mapping, FileStats), and instances whose in-memory representation differs are driven through continuations that must behave identically.",
+   text="Reopen is an operation of the BFS alphabet at every quiescent state; the logical file before and after must be identical (root, page contents, free pages as sets, end markers, meta area, WAL mapping, FileStats), and instances whose in-memory representation differs are driven through continuations that must behave identically. The wide pass includes an alignment sweep (k one-page free regions in front of a 300-page region, k in a range around the page boundary, thorough: 1..360) and fresh files whose pre-sized meta area gives a free region of 254/255/256 pages.",
    note="Depth-bounded; wide encodings (multi-page free lists / mappings, 255+ regions) are covered by the wide-history pass.",
    ref="5/C10"),
  "C11": dict(level="model_checking",
    technique="explicit-state BFS on bounded files with a capacity probe (allocate until failure on a twin) in every quiescent state",
-   text="On bounded configurations without overflow transactions, in every quiescent state of the BFS: pages that can really be allocated (probe transaction on a twin) + live pages (model) + meta area (FileStats) + 2 == maximum; FileStats (DataAllocated, MetaArea, MetaAllocated, MaxSize) equal reality and what the Observer was told; the simulated disk's maximum extent never exceeds the maximum size.",
+   text="On bounded configurations without overflow transactions, in every quiescent state of the BFS: pages that can really be allocated (probe transaction on a twin) + live pages (model) + meta area (FileStats) + 2 == maximum; FileStats (DataAllocated, MetaArea, MetaAllocated, MaxSize) equal reality and what the Observer was told; the simulated disk's maximum extent never exceeds the maximum size. The probe also checks that the meta pages not on the meta free list are exactly those holding free list, mapping or overwrite copies (no leaked meta pages).",
    note="Depth-bounded histories; bounded page alphabets.",
    ref="5/C11"),
  "C03": dict(level="model_checking",
